@@ -40,11 +40,11 @@ TermNow   == IF ust = "closed" THEN "eof" ELSE "stall"
 GenInv ==
   pc # "done" \/
   PrintT(ToJson([kind |-> scn.kind, g |-> scn.g, mode |-> umode, wire |-> uwire, entry |-> entry, req |-> req, route |-> route,
-                 ev |-> hist, lastin |-> lastin, took |-> now, connected |-> (scn.kind # "refuse"),
+                 ev |-> hist, lastin |-> lastin, took |-> now, connected |-> (scn.kind \notin {"refuse", "blackhole"}),
                  segs |-> Delivered, term |-> TermNow,
-                 exp |-> answer, fwd |-> fwd,
+                 exp |-> answer, base |-> Predict({}, Delivered, TermNow), fwd |-> fwd,
                  alt |-> [d \in RealDevs |-> Predict({d}, Delivered, TermNow)]]))
 
 \* the step model agrees with the fold used by the trace spec and for the predictions
-Inv_FoldAgrees == pc = "done" /\ scn.kind # "refuse" => AnsEq(answer, Predict(Dev, Consumed, TermSeen))
+Inv_FoldAgrees == pc = "done" /\ scn.kind \notin {"refuse", "blackhole"} => AnsEq(answer, Predict(Dev, Consumed, TermSeen))
 =============================================================================
